@@ -23,7 +23,7 @@ var nativeElems = []string{`1`, `"s"`, `true`, `null`, `v`, `w.a`, `[1, v]`, `{a
 
 // object constructor key forms, native syntax. Bare identifiers are literal
 // attribute names (hclsyntax/spec.md "Collection Values").
-var nativeKeys = []string{`a`, `b-c`, `"q"`, `(k)`, `"x${k}"`, `true`, `null`, `1`, `if`, `k`, `for`, `w.a`, `(w.a)`, `(null)`, `(v)`, `(u)`}
+var nativeKeys = []string{`a`, `b-c`, `"q"`, `(k)`, `"x${k}"`, `true`, `null`, `1`, `if`, `k`, `for`, `w.a`, `(w.a)`, `(null)`, `(v)`, `(u)`, `null.a`, `true.b.c`, `w.a["b"]`}
 var nativeVals = []string{`1`, `"s"`, `v`, `[1]`, `u`, `nope`, `m`}
 
 var bareIdent = map[string]bool{`a`: true, `b-c`: true, `true`: true, `null`: true, `if`: true, `k`: true, `for`: true}
@@ -389,6 +389,27 @@ func judgeMap(d Data) engine.Outcome {
 			}
 			if kw := hcl.ExprAsKeyword(keyExprs[i]); kw != k {
 				return engine.Fail("c20.static-map-bare-key-keyword", "%s: ExprAsKeyword of key %d (bare identifier %s) = %q", text, i, k, kw)
+			}
+		}
+	}
+	if d.Syntax == "native" {
+		// a key whose text is a static traversal when it stands as an expression of its own (references,
+		// also those rooted at the keywords true / false / null) is one as a key too
+		for i, k := range d.Keys {
+			ke, kd := hclsyntax.ParseExpression([]byte(k), "k.hcl", hcl.InitialPos)
+			if kd.HasErrors() {
+				continue
+			}
+			want, wd := hcl.AbsTraversalForExpr(ke)
+			if wd.HasErrors() {
+				continue
+			}
+			got, gd := hcl.AbsTraversalForExpr(keyExprs[i])
+			if gd.HasErrors() {
+				return engine.Fail("c20.static-map-key-traversal-rejected", "%s: key %d (%s) is a static traversal as an expression of its own, but AbsTraversalForExpr of the key expression fails: %s", text, i, k, gd.Error())
+			}
+			if len(got) != len(want) || got.RootName() != want.RootName() {
+				return engine.Fail("c20.static-map-key-traversal-differs", "%s: key %d (%s): traversal of the key expression has %d steps from root %q, of the same text as an expression %d steps from root %q", text, i, k, len(got), got.RootName(), len(want), want.RootName())
 			}
 		}
 	}
